@@ -6,6 +6,8 @@ From Coq Require Import String ZArith NArith List Bool Reals.
 From Tangelo Require Import Num.KStruct Num.CReal Num.Cyc QSem.State QSem.StateLemmas QSem.CircuitLemmas QSem.Commute.
 From Tangelo Require Import Linq.GateModel Linq.CircuitModel Linq.History Linq.CircuitProofs Linq.Interp
      Linq.InterpProofs Linq.PassLemmas Linq.Clifford Linq.RealInst Linq.LinqZ Linq.Equiv Linq.SmallRot.
+From Tangelo Require Import Linq.ScanLemmas Linq.InterpFacts Linq.MergeProofs Linq.GateEqSound Linq.RedundantProofs
+     Linq.SimplifyProofs.
 From Gen Require Import GateTables CliffordTables.
 Import ListNotations.
 Open Scope string_scope.
@@ -135,6 +137,103 @@ Theorem C09_rot_4pi_identity :
 Proof. exact (rot_cis1_identity RS). Qed.
 Print Assumptions C09_rot_4pi_identity.
 
+(* 11. The pass theorems below are stated for VALID gates: non-negative pairwise distinct qubit indices,
+       a control list only under a name starting with C (gate_okb).  Every gate of every circuit accepted
+       by the constructor Circuit(gates, n_qubits) — hence of every circuit returned by any operation of
+       the model — is valid. *)
+Theorem C09_built_gates_valid :
+  forall Ang T (gs : list (pgate Ang)) nq c, build Ang T gs nq = Ok c -> Forall (fun g => gate_okb Ang g = true) gs.
+Proof. exact build_okb. Qed.
+Print Assumptions C09_built_gates_valid.
+
+(* side conditions of the pass theorems on the tables regenerated from gate.py / circuit.py: only
+   rotation names are merged; CRX CRY CRZ are compared modulo the long period; the moduli and the
+   inverse parameters of S and T have the values the theorems are stated for.  The second conjunct
+   FAILS for the original source (all names compared modulo 2*pi): the defect repaired by a fix: commit. *)
+Theorem C09_pass_tables_ok :
+  merge_tables_ok gtables = true /\ eq_tables_ok gtables = true /\ pass_tables_ok gtables = true
+  /\ eq_modulus_units = 16%Z /\ eq_modulus_long_units = 32%Z /\ inv_S_units = (-4)%Z /\ inv_T_units = (-2)%Z.
+Proof. vm_compute. repeat split. Qed.
+Print Assumptions C09_pass_tables_ok.
+
+(* 12. merge_rotations (model of the function over the regenerated tables) preserves the operation
+       EXACTLY: for every list of valid interpretable gates, EVERY real angle, any number of controls,
+       and whatever the float comparison of Gate.__eq__ answers (eqmod is universally quantified), the
+       gates returned denote the same operation on every state. *)
+Theorem C09_merge_rotations_sound :
+  forall (eqmod : bool -> R -> R -> bool) (gs out : list (pgate R)) C,
+    Forall (fun g => gate_okb R g = true) gs -> rinterp_all gs = Some C ->
+    merge_core R Rplus eqmod gtables gs = Ok out ->
+    Forall (fun g => gate_okb R g = true) out
+    /\ exists C', rinterp_all out = Some C' /\ forall psi, den RS C' psi = den RS C psi.
+Proof.
+  intros eqmod gs out C Hok HC H.
+  exact (merge_rotations_sound RS R (fun a => a) Rplus eqmod gtables (fun a b => eq_refl) gs out C
+                               (proj1 C09_pass_tables_ok) Hok HC H).
+Qed.
+Print Assumptions C09_merge_rotations_sound.
+
+Theorem C09_merge_rotations_fn_sound :
+  forall (eqmod : bool -> R -> R -> bool) (c c' : circ R) C,
+    Forall (fun g => gate_okb R g = true) (cgates R c) -> rinterp_all (cgates R c) = Some C ->
+    merge_rotations_fn R Rplus eqmod gtables c = Ok c' ->
+    Forall (fun g => gate_okb R g = true) (cgates R c')
+    /\ exists C', rinterp_all (cgates R c') = Some C' /\ forall psi, den RS C' psi = den RS C psi.
+Proof.
+  intros eqmod c c' C Hok HC H.
+  exact (merge_rotations_fn_sound RS R (fun a => a) Rplus eqmod gtables (fun a b => eq_refl) c c' C
+                                  (proj1 C09_pass_tables_ok) Hok HC H).
+Qed.
+Print Assumptions C09_merge_rotations_fn_sound.
+
+(* 13. Gate.__eq__ (model over the regenerated tables and moduli) on the exact grid k*pi/8: two gates
+       that compare equal implement the same operation up to ONE global sign, and exactly the same
+       operation when the gate has controls. *)
+Theorem C09_gate_eq_sound :
+  forall (g h : zgate) G H,
+    gate_okb Z g = true ->
+    gate_eq Z (zeqmod eq_modulus_units eq_modulus_long_units) gtables g h = true ->
+    cy_interp g = Some G -> cy_interp h = Some H ->
+    exists neg, (gctrl G <> [] -> neg = false)
+                /\ forall psi, den_gate CycS G psi = sscale CycS (sgn neg) (den_gate CycS H psi).
+Proof. exact (fun g h G H => gate_eq_sound gtables g h G H (proj1 (proj2 C09_pass_tables_ok))). Qed.
+Print Assumptions C09_gate_eq_sound.
+
+(* 14. remove_redundant_gates (model over the regenerated tables; Gate.inverse and Gate.__eq__ as
+       regenerated) on the exact grid: for every list of valid interpretable gates, the gates kept
+       denote the operation of the input up to ONE global sign. *)
+Theorem C09_remove_redundant_sound :
+  forall (gs out : list zgate) C,
+    Forall (fun g => gate_okb Z g = true) gs -> cy_interp_all gs = Some C ->
+    redundant_core Z Z.opp (zeqmod eq_modulus_units eq_modulus_long_units) inv_S_units inv_T_units gtables gs = Ok out ->
+    Forall (fun g => gate_okb Z g = true) out
+    /\ exists C' neg, cy_interp_all out = Some C'
+                      /\ forall psi, den CycS C psi = sscale CycS (sgn neg) (den CycS C' psi).
+Proof.
+  intros gs out C.
+  exact (remove_redundant_sound gtables inv_S_units inv_T_units eq_refl eq_refl gs out C
+                                (proj1 (proj2 C09_pass_tables_ok))).
+Qed.
+Print Assumptions C09_remove_redundant_sound.
+
+(* 15. simplify (copy, then cycles of merge_rotations / remove_small_rotations / remove_redundant_gates
+       until nothing changes or max_cycles is reached), on the exact grid: for every valid circuit,
+       every cycle bound and both values of remove_qubits, the result denotes the operation of the
+       input up to ONE global sign. *)
+Theorem C09_simplify_sound :
+  forall (c : zcirc) (max_cycles : nat) (remove_qubits : bool) (c' : zcirc) C,
+    Forall (fun g => gate_okb Z g = true) (cgates Z c) -> cy_interp_all (cgates Z c) = Some C ->
+    simplify Z Z.add Z.opp (zsmall small_modulus_units small_modulus_long_units)
+             (zeqmod eq_modulus_units eq_modulus_long_units) inv_S_units inv_T_units gtables c max_cycles remove_qubits = Ok c' ->
+    Forall (fun g => gate_okb Z g = true) (cgates Z c')
+    /\ exists C' neg, cy_interp_all (cgates Z c') = Some C'
+                      /\ forall psi, den CycS C psi = sscale CycS (sgn neg) (den CycS C' psi).
+Proof.
+  exact (simplify_sound gtables inv_S_units inv_T_units eq_refl eq_refl
+                        (proj1 (proj2 (proj2 C09_pass_tables_ok)))).
+Qed.
+Print Assumptions C09_simplify_sound.
+
 (* ---- witnesses (exact, cyclotomic instance, regenerated tables) ---- *)
 (* the repaired source keeps CRZ(2*pi) and drops CRZ(4*pi) and RZ(2*pi) *)
 Example C09_remove_small_keeps_ctrl_2pi :
@@ -174,3 +273,23 @@ Proof.
   do 2 eexists. split; [cbv - [Ropp Rmult Rdiv Rinv Rplus Rminus IZR PI of_units]; reflexivity|].
   split; [cbv - [Ropp Rmult Rdiv Rinv Rplus Rminus IZR PI of_units]; reflexivity | reflexivity].
 Qed.
+
+(* non-vacuity of 12-15: a valid interpretable circuit on which every pass acts: the two RZ on qubit 1
+   merge across the gates on qubit 0 and 2; RX(3*pi/8) RX(13*pi/8) cancel (the inverse of the first
+   equals the second modulo 2*pi) although their product is RX(2*pi) = -1: the sign of theorem 14 is
+   needed ("P": equal up to a global phase, not "E"); H H cancel exactly. *)
+Definition ex_pass : list zgate :=
+  [G "RZ" [1%Z] None (PNum 3%Z) false; G "H" [0%Z] None PNone false; G "CNOT" [2%Z] (Some [0%Z]) PNone false;
+   G "RZ" [1%Z] None (PNum 5%Z) true; G "RX" [3%Z] None (PNum 3%Z) false; G "RX" [3%Z] None (PNum 13%Z) false;
+   G "H" [4%Z] None PNone false; G "H" [4%Z] None PNone false].
+Example C09_passes_nonvacuous :
+  forallb (gate_okb Z) ex_pass = true
+  /\ (exists C, cy_interp_all ex_pass = Some C)
+  /\ option_map show_gates
+       (match merge_core Z Z.add (zeqmod eq_modulus_units eq_modulus_long_units) gtables ex_pass with Ok l => Some l | Err _ => None end)
+     = Some "RZ(1;N;8;T) H(0;N;_;F) CNOT(2;0;_;F) RX(3;N;16;F) H(4;N;_;F) H(4;N;_;F)"
+  /\ option_map show_gates
+       (match redundant_core Z Z.opp (zeqmod eq_modulus_units eq_modulus_long_units) inv_S_units inv_T_units gtables ex_pass with Ok l => Some l | Err _ => None end)
+     = Some "RZ(1;N;3;F) H(0;N;_;F) CNOT(2;0;_;F) RZ(1;N;5;T)"
+  /\ compare_circuits 5 ex_pass [G "RZ" [1%Z] None (PNum 8%Z) true; G "H" [0%Z] None PNone false; G "CNOT" [2%Z] (Some [0%Z]) PNone false] = "P".
+Proof. vm_compute. repeat split. eexists. reflexivity. Qed.
